@@ -11,6 +11,8 @@ CONSTANTS
   OtherForAll = FALSE
   EmptyMeansAll = FALSE
   StatusSucceeds = TRUE
+  AliasCallerSet = FALSE
+  MemoDecision = FALSE
   StarWithCreds = FALSE
 INVARIANT OnlyAllowedOrigins
 INVARIANT NoOriginUntouched
